@@ -10,7 +10,8 @@
      srflx  gatherCandidatesSrflx: listenUDPInPortRange -> STUN exchange (with the goroutine that
             closes the socket when the loop is done) -> addCandidate
      relay  gatherCandidatesRelay (UDP TURN): ListenPacket -> TURN client factory -> Listen ->
-            Allocate -> addRelayCandidates/createRelayCandidate -> addCandidate
+            Allocate -> the relayed address is accepted (not location-tracked, of a configured
+            network type) or everything is released -> addRelayCandidates/createRelayCandidate -> addCandidate
    with the cancel/error exit of each step and the close calls gather.go makes on that exit.
    addCandidate is two steps (agent.go): the ctx.Err() check, then loop.Run's select, which either
    sends the task (run: duplicate -> closed, else started and owned by the candidate) or takes
@@ -82,7 +83,7 @@ Definition pc_done := 200.
 Definition pc_checked := 100.
 (* the stage at which an attempt calls addCandidate *)
 Definition ready_pc (k : akind) : nat :=
-  match k with KHost => 1 | KTcpMux => 1 | KSrflx => 2 | KRelay => 4 end.
+  match k with KHost => 1 | KTcpMux => 1 | KSrflx => 2 | KRelay => 5 end.
 
 Fixpoint upd {A} (l : list A) (k : nat) (f : A -> A) : list A :=
   match l, k with
@@ -144,7 +145,7 @@ Definition delete_all_close (s : led) : list res * list cand :=
 Inductive action :=
 | LSpawn (kind : akind) (gen : nat) (key : nat)   (* a gatherer of the cycle of generation gen starts an attempt *)
 | LAcquire (k : nat) (ok : bool)                  (* listen / GetConnByUfrag / ListenPacket: socket or error *)
-| LStep (k : nat) (ok : bool)                     (* srflx: STUN reply or failure; relay: factory, Listen, Allocate *)
+| LStep (k : nat) (ok : bool)                     (* srflx: STUN reply or failure; relay: factory, Listen, Allocate, address accepted *)
 | LWatch (k : nat)                                (* srflx: the loop-done watcher closes the socket *)
 | LAddCheck (k : nat)                             (* addCandidate: ctx.Err() check *)
 | LAddRun (k : nat)                               (* loop.Run's select sends; the task runs *)
